@@ -22,6 +22,7 @@
 #include <fcppt/parse/separator.hpp>
 #include <fcppt/parse/uint.hpp>
 #include <fcppt/parse/operators/alternative.hpp>
+#include <fcppt/parse/operators/not.hpp>
 #include <fcppt/parse/operators/optional.hpp>
 #include <fcppt/parse/operators/repetition.hpp>
 #include <fcppt/parse/operators/repetition_plus.hpp>
@@ -157,6 +158,27 @@ VERIF_HARNESS(h_s09)
 }
 //@harness h_s09 param n=0..2 tier=quick loop=20
 //@harness h_s09 param n=3..4 tier=thorough loop=20 wall=900
+
+// s10: negative lookahead over a MULTI-PART parser under the space skipper: the looked-ahead sequence skips between its
+// parts like any other sequence (!p is the exact negation of "p matches here"), and consumes nothing either way
+VERIF_HARNESS(h_s10)
+{
+  static constexpr node g[] = {SEQ(1, 5), NOT(2), SEQ(3, 4), LIT('a'), LIT('b'), LEXEME(6), REP(7), ANY(), /*skipper 8*/ REP(9), SET(" \n\t")};
+  auto const parser{!(p::literal{'a'} >> p::literal{'b'}) >> p::make_lexeme(*p::char_{})};
+  check(parser, p::skipper::space(), g, 0, 8, len());
+}
+//@harness h_s10 param n=0..3 tier=quick loop=20
+//@harness h_s10 param n=4..4 tier=thorough loop=20
+// s11: the same under a repetition: *( !(a a) {a,b} ) a a  - the lookahead decides where the repetition stops
+VERIF_HARNESS(h_s11)
+{
+  static constexpr node g[] = {SEQ(1, 8), REP(2), SEQ(3, 7), NOT(4), SEQ(5, 6), LIT('a'), LIT('a'), SET("ab"), SEQ(9, 10), LIT('a'), LIT('a'),
+                               /*skipper 11*/ REP(12), SET(" \n\t")};
+  auto const parser{*(!(p::literal{'a'} >> p::literal{'a'}) >> p::char_set{'a', 'b'}) >> (p::literal{'a'} >> p::literal{'a'})};
+  check(parser, p::skipper::space(), g, 0, 11, len());
+}
+//@harness h_s11 param n=0..3 tier=quick loop=20
+//@harness h_s11 param n=4..4 tier=thorough loop=20
 
 // n01: uint<unsigned> >> uint<unsigned> under the space skipper (the documentation's example: "10 20")
 VERIF_HARNESS(h_n01)
